@@ -59,7 +59,11 @@ fn round<T: Uni + Encode + Decode + Clone + EncodeLike + Ord + 'static>(cx: &mut
 fn round_holders<T: Uni + Encode + Decode + Clone + EncodeLike + 'static>(cx: &mut Cx, tn: &str) {
 	let x = T::gen(&mut cx.rng, 0);
 	let y = T::gen(&mut cx.rng, 0);
-	let xs: Vec<T> = Vec::<T>::gen(&mut cx.rng, 1);
+	// now and then a sequence spanning several preallocation chunks
+	let big = cx.rng.chance(1, 6) && std::mem::size_of::<T>() <= 8;
+	cx.rng.bigbias = big;
+	let xs: Vec<T> = Vec::<T>::gen(&mut cx.rng, if big { 0 } else { 1 });
+	cx.rng.bigbias = false;
 	// holders
 	like::<Box<T>, T>(cx, &format!("Box<{tn}>->T"), &Box::new(x.clone()), &x, true);
 	like::<T, Box<T>>(cx, &format!("{tn}->Box<T>"), &x, &Box::new(x.clone()), true);
@@ -170,6 +174,10 @@ pub fn run(args: &Args) {
 		round_holders::<TrC>(&mut cx, "TrC");
 		round_holders::<TrK>(&mut cx, "TrK");
 		round_holders::<TrP>(&mut cx, "TrP");
+		round_holders::<Unit1>(&mut cx, "Unit1");
+		round_holders::<TrE>(&mut cx, "TrE");
+		round_holders::<SkP>(&mut cx, "SkP");
+		round_holders::<EN>(&mut cx, "EN");
 		// strings and byte buffers
 		let s = String::gen(&mut cx.rng, 0);
 		like::<&str, String>(&mut cx, "&str->String", &&s[..], &s, true);
@@ -209,7 +217,7 @@ pub fn run(args: &Args) {
 		let ob = OptionBool::gen(&mut cx.rng, 0);
 		like::<Box<OptionBool>, OptionBool>(&mut cx, "Box<OptionBool>->OptionBool", &Box::new(ob), &ob, true);
 	}
-	let rule = "every EncodeLike family of the crate used through the trait bound (holders Box/&/&&/&mut/Cow/Rc/Arc/Ref, Option/Result/array/tuple lifting, Vec/VecDeque/slices, LinkedList/BTreeSet/BinaryHeap/BTreeMap and slices of tuples in both directions, String/&str, Bytes/&[u8]/Vec<u8>, CompactRef, derived types, BitVec/BitBox, GenericArray) over nine primitive/std element types and eleven derived element types (structs, enum, compact/skipped fields, generic, repr(transparent) with and without compact) with seeded values: the bytes of A vs the encoding of the value it stands for, decoding as B, and the model's encoding of the target value; non-trivial = non-empty bytes";
+	let rule = "every EncodeLike family of the crate used through the trait bound (holders Box/&/&&/&mut/Cow/Rc/Arc/Ref, Option/Result/array/tuple lifting, Vec/VecDeque/slices, LinkedList/BTreeSet/BinaryHeap/BTreeMap and slices of tuples in both directions, String/&str, Bytes/&[u8]/Vec<u8>, CompactRef, derived types, BitVec/BitBox, GenericArray) over nine primitive/std element types and fifteen derived element types (structs, enum, compact/skipped fields, generic, repr(transparent) with and without compact) with seeded values: the bytes of A vs the encoding of the value it stands for, decoding as B, and the model's encoding of the target value; non-trivial = non-empty bytes";
 	cx.cases.write(&args.out, "c16", args.shards);
 	cx.oracle.write(&args.out);
 	cx.stats.write(&args.out, cx.cases.len(), cx.cases.nontrivial, cx.cases.dups, cx.oracle.checks, rule);
